@@ -112,3 +112,32 @@ func VerifFlvJoinRace() {
 	}
 	symapi.Reach("end")
 }
+
+// VerifConcurrentJoins (C01/C04): two consumers attaching at the same time get different
+// ids, are both registered, and both receive the next packet.
+func VerifConcurrentJoins() {
+	s := verifStream("/a")
+	r1, r2 := &verifConsumer{}, &verifConsumer{}
+	var c1, c2 CID
+	symapi.Go(func() { c1 = s.StartConsumeNoGopCache(r1, RTPPacket, "one") })
+	c2 = s.StartConsumeNoGopCache(r2, RTPPacket, "two")
+	symapi.Quiesce()
+	symapi.Assert(c1 != c2, "concurrent-joiners-get-different-ids")
+	symapi.Assert(s.ConsumerCount() == 2, "both-joiners-registered")
+	p := &rtp.Packet{Channel: rtp.ChannelVideo, Data: []byte{0x41, 1, 2}}
+	s.WriteRtpPacket(p)
+	symapi.Quiesce()
+	for _, cid := range []CID{c1, c2} {
+		c := verifConsumption(s, cid)
+		symapi.Assert(c != nil, "joiner-in-the-list")
+	}
+	got := func(r *verifConsumer, cid CID) int {
+		n := len(r.got)
+		if c := verifConsumption(s, cid); c != nil {
+			n += c.recvQueue.Len()
+		}
+		return n
+	}
+	symapi.Assert(got(r1, c1) == 1 && got(r2, c2) == 1, "both-joiners-receive-the-packet-once")
+	symapi.Reach("end")
+}
